@@ -57,3 +57,37 @@ Proof. intros w. cbn. repeat split. Qed.
 (* Deref is only ever applied to a mapped pointer or answered with the empty slice *)
 Theorem deref_defined : forall w r, r_mapped r = false -> read w r = [].
 Proof. intros w r H. unfold read. now rewrite H. Qed.
+
+(* ---- failing mappings: an operation either panics or behaves exactly as if nothing had failed; it never hands out a region
+   whose length or contents differ, whatever the oracle ---- *)
+Theorem mmap_failure_all_or_nothing : forall ok w bytes w' r cs,
+  create_f ok w bytes = Some (w', r, cs) -> (w', r, cs) = create w bytes /\ read w' r = bytes.
+Proof.
+  intros ok w bytes w' r cs H. unfold create_f, guard in H. pose proof (read_from_bytes w bytes) as Hr. unfold from_bytes in Hr.
+  destruct (create w bytes) as [[w1 r1] c1]. destruct (r_mapped r1 && negb ok); [discriminate|]. injection H as <- <- <-. auto.
+Qed.
+
+Theorem mmap_failure_clone : forall ok w r w' r' cs,
+  clone_f ok w r = Some (w', r', cs) -> read w' r' = read w r /\ r_len r' = r_len r.
+Proof.
+  intros ok w r w' r' cs H. unfold clone_f, guard in H. pose proof (read_clone w r) as Hr.
+  destruct (clone w r) as [[w1 r1] c1] eqn:E. destruct (r_mapped r1 && negb ok); [discriminate|]. injection H as <- <- <-.
+  split; [apply Hr|]. unfold clone in E. injection E as _ <- _. reflexivity.
+Qed.
+
+Theorem mmap_failure_receive : forall ok w bytes w1 r c1 w2 r' c2,
+  from_bytes w bytes = (w1, r, c1) -> receive_f ok w1 r = Some (w2, r', c2) ->
+  read w2 r' = bytes /\ r_len r' = Z.of_nat (length bytes).
+Proof.
+  intros ok w bytes w1 r c1 w2 r' c2 Hc H. unfold receive_f, guard in H. pose proof (read_received w bytes) as Hr.
+  rewrite Hc in Hr. destruct (receive w1 r) as [[w3 r3] c3]. destruct (r_mapped r3 && negb ok); [discriminate|].
+  injection H as <- <- <-. exact Hr.
+Qed.
+
+(* with the mapping refused, exactly the operations that map something panic *)
+Theorem mmap_failure_panics_iff : forall w bytes,
+  create_f false w bytes = None <-> mmapfail_panics (Z.of_nat (length bytes)) = true.
+Proof.
+  intros w bytes. unfold create_f, guard, create, mmapfail_panics. cbn [r_mapped].
+  destruct (negb (Z.of_nat (length bytes) =? 0)); cbn; split; intros H; auto; discriminate.
+Qed.
